@@ -71,7 +71,7 @@ class Sanitizer:
         order, deps = W.line_deps(circuit, strip_forks=strip_forks)
         self.exp_writer = {}
         for li, d in deps.items():
-            self.exp_writer[li] = d[1] if d[0] == 'alias' else li
+            self.exp_writer[li] = d[1] if d[0] == 'alias' else (-1 if d[0] == 'zero' else li)
         s_nodes = list(circuit.s_nodes)
         self.ppo_expect = {}         # region start -> set of acceptable owners for capture reads
         for i, n in enumerate(s_nodes):
@@ -237,6 +237,12 @@ class Sanitizer:
                         why = f'constant-0 slot row {row} was written by line {self.owner[row, lane]}'
                         continue
                     want = self.exp_writer.get(x, x)
+                    if want == -1:            # a stripped floating fork: the operand is the never-written constant-0 slot
+                        if self.owner[row, lane] == -1:
+                            ok_owner = True
+                            break
+                        why = f'operand line {x} aliases the constant-0 slot, but row {row} was written by line {self.owner[row, lane]}'
+                        continue
                     if self.owner[row, lane] == want and self.wepoch[row, lane] == self.epoch and self.wlevel[row, lane] < self.level:
                         ok_owner = True
                         break
